@@ -16,6 +16,22 @@ import os
 import sys
 
 from . import core
+from . import strs
+
+strs.install()
+
+
+def _join(sep, it):
+    items = list(it)
+    if any(type(x) is strs.SymStr for x in items) or type(sep) is strs.SymStr:
+        out = []
+        for k, x in enumerate(items):
+            if k:
+                out.extend(strs.SymStr.lift(sep))
+            out.extend(strs.SymStr.lift(x))
+        return strs.SymStr.make(out)
+    return sep.join(items)
+
 
 REPO = os.environ.get("VERIF_REPO", "/repo")
 PKG = "metomi.isodatetime"
@@ -44,6 +60,33 @@ class _Rewriter(ast.NodeTransformer):
 
     def visit_AugAssign(self, node):
         self.generic_visit(node)
+        return node
+
+    def visit_Import(self, node):
+        # `import re` -> the regex shim (delegates to CPython's re on plain strings)
+        out = []
+        for a in node.names:
+            if a.name == "re":
+                out.append(ast.copy_location(ast.ImportFrom(
+                    module="symx.strs", names=[ast.alias(name="re_shim", asname=a.asname or "re")], level=0), node))
+            else:
+                out.append(ast.copy_location(ast.Import(names=[a]), node))
+        return out
+
+    def visit_Call(self, node):
+        self.generic_visit(node)
+        f = node.func
+        if isinstance(f, ast.Attribute) and f.attr == "format" and not any(
+                isinstance(a, ast.Starred) for a in node.args) and not any(k.arg is None for k in node.keywords):
+            return ast.copy_location(ast.Call(func=ast.Name(id="__symx_format__", ctx=ast.Load()),
+                                              args=[f.value] + node.args, keywords=node.keywords), node)
+        if isinstance(f, ast.Attribute) and f.attr == "format":
+            return ast.copy_location(ast.Call(func=ast.Name(id="__symx_format__", ctx=ast.Load()),
+                                              args=[f.value] + node.args, keywords=node.keywords), node)
+        if (isinstance(f, ast.Attribute) and f.attr == "join" and len(node.args) == 1 and not node.keywords and
+                isinstance(f.value, ast.Constant) and isinstance(f.value.value, str)):
+            return ast.copy_location(ast.Call(func=ast.Name(id="__symx_join__", ctx=ast.Load()),
+                                              args=[f.value, node.args[0]], keywords=[]), node)
         return node
 
     def visit_ClassDef(self, node):
@@ -91,6 +134,8 @@ class _Loader(importlib.machinery.SourceFileLoader):
         d = module.__dict__
         d["__symx_mod__"] = core.symx_mod
         d["__symx_enter__"] = _enter
+        d["__symx_format__"] = strs.sym_format
+        d["__symx_join__"] = _join
         d["__symx_marker__"] = True
         for k, v in core.SHIMS.items():
             if k != "floor":
